@@ -203,7 +203,8 @@ def run(ctx):
         if est is not None:
             why = oracle(c, est)
             if why:
-                ctx.fail(why, c, {'kinds': sorted(pipes.kinds_in(c['spec']))})
+                small = st.shrink(c, lambda x: oracle(x))
+                ctx.fail(oracle(small) or why, small, {'kinds': sorted(pipes.kinds_in(c['spec']))})
     def search(ctx):
         for c in bad_cases[:50]:
             why = oracle(c)
